@@ -160,8 +160,9 @@ def openInputC (env : Env K) (p : Params) (logMax : Nat) (bits : List K) (alpha 
   for b in bits do need (decide (b * (b - 1) = 0))
   let heights := batches.flatMap fun b => b.map fun m => m.logSize + p.logBlowup
   let hmax := heights.foldl max 0
-  -- `index_bits[bits_reduced..bits_reduced + h_max]` with `bits_reduced = log_max − h_max`
-  if ¬ heights.isEmpty ∧ hmax > logMax then throw .panic
+  -- `bits_reduced = log_max − h_max`: a matrix taller than the global maximum is rejected with
+  -- `InvalidProofShape` (repo fix 9d0167a for finding F9o; it used to underflow and panic)
+  if ¬ heights.isEmpty ∧ hmax > logMax then throw .build
   if opened.length ≠ batches.length then throw .build
   let mut acc : List (Nat × K × K) := []
   for (bo, b) in opened.zip batches do
